@@ -254,7 +254,9 @@ class MultipartDecoder:
         for line in data.splitlines():
             line = line.strip()
             if line != b"":
-                name, value = safe_decode(line, self.charset).split(":", 1)
+                name, colon, value = safe_decode(line, self.charset).partition(":")
+                if not colon:
+                    raise MalformedMultipart("Invalid header line in a part")
                 headers.append((name.strip(), value.strip()))
         return Headers(headers)
 
@@ -262,5 +264,5 @@ class MultipartDecoder:
 def safe_decode(src: Union[bytes, bytearray], charset: str) -> str:
     try:
         return src.decode(charset)
-    except (UnicodeDecodeError, LookupError):
+    except (UnicodeError, LookupError):
         return src.decode("latin-1")
